@@ -77,7 +77,7 @@ def self_scored_cases(tier):
                              "near_unanimous", "complete"])
 
 
-RESTRICTED = [(n, "absent") for n in ("pickaperm", "enum_pickaperm", "bioco", "enum_bioco", "bioconsert_borda_pick",
+RESTRICTED = [(n, "absent") for n in ("pickaperm", "enum_pickaperm", "borda", "borda_bucket", "bioco", "enum_bioco", "bioconsert_borda_pick",
                                        "bioconsert_kwik_cop_borda", "bioconsert", "parcons_bioco_b0",
                                        "parcons_borda_b0")]
 
@@ -148,6 +148,16 @@ def reuse_cases(draw, tier):
     """ONE algorithm instance used for several (dataset, scheme) pairs, scores read in a drawn order"""
     name = draw(st.sampled_from(REUSE_CFGS))
     runs = []
+    if draw(st.booleans()):
+        # the SAME rankings under several multiples of ONE scheme, one run after the other: equal position matrices,
+        # equal nicknames, proportional cost tables - only the scale tells the runs apart
+        base = draw(st.one_of(gen.preset_multiples(["unifying", "unifying", "induced", "pseudodistance", "extended"]),
+                              gen.dyadic_schemes()))
+        ds = draw(gen.datasets(max_n=6, max_m=4))
+        for k in list(draw(st.permutations([1.0, 0.5, 2.0, 3.0])))[:draw(st.sampled_from([2, 3]))]:
+            runs.append({"scheme": gen.scale(base, k), "dataset": ds, "flag": draw(st.booleans()),
+                         "read_now": draw(st.booleans())})
+        return {"config": name, "runs": runs, "rng": draw(st.integers(0, 999)), "mode": "multiples"}
     for _ in range(draw(st.sampled_from([2, 2, 3]))):
         runs.append({"scheme": draw(st.one_of(gen.preset_multiples(["unifying", "unifying", "induced"]),
                                               gen.any_schemes())),
@@ -172,7 +182,7 @@ def check_reuse(case, ctx):
             results.append((st_, val, r))
     answered = [x for x in results if x[0] == "ok"]
     ctx.stats.case(case, len(answered) >= 2 and any(x[2]["read_now"] for x in answered[:-1]),
-                   ["cfg:" + case["config"], "answered:%d" % len(answered)])
+                   ["cfg:" + case["config"], "answered:%d" % len(answered), "mode:" + case.get("mode", "independent")])
     for st_, val, r in answered:
         rankings, scheme = r["dataset"]["rankings"], r["scheme"]
         models = well_formed(val, rankings, r["flag"], case["config"])
